@@ -24,6 +24,7 @@ type C11 struct {
 	channel   map[string]string
 	prePhase  map[string]providertypes.ConsumerPhase
 	preFP     map[string]map[string]string // per-consumer footprints before the block
+	lastFP    map[string]map[string]string // last footprint seen while stopped
 	preVals   int
 	sentSeen  map[string]int
 	// TolerateOpenChannel is set by C19 when a fault was injected into the channel closing of a deletion
@@ -33,7 +34,7 @@ type C11 struct {
 }
 
 func NewC11(w *world.World) *C11 {
-	return &C11{stopTime: map[string]time.Time{}, stopUB: map[string]time.Duration{}, atStop: map[string]map[string]string{}, channel: map[string]string{}, sentSeen: map[string]int{}, stopKinds: map[string]bool{}}
+	return &C11{stopTime: map[string]time.Time{}, stopUB: map[string]time.Duration{}, atStop: map[string]map[string]string{}, channel: map[string]string{}, sentSeen: map[string]int{}, stopKinds: map[string]bool{}, lastFP: map[string]map[string]string{}}
 }
 
 var mayRemain = map[byte]bool{44: true, 45: true, 46: true, 47: true, 48: true, 49: true, 54: true, 55: true, 57: true}
@@ -137,6 +138,7 @@ func (m *C11) After(w *world.World, a *world.Action, r *world.StepResult) *Viola
 		}
 		deadline := stop.Add(m.stopUB[id])
 		if T.Before(deadline) {
+			m.lastFP[id] = fp
 			if ph != world.PhStopped {
 				return violf(P, "phase-before-deadline", "consumer %s stopped at %s is %s at %s, before stop + unbonding period (%s)", id, stop.Format(time.RFC3339), ph, T.Format(time.RFC3339), deadline.Format(time.RFC3339))
 			}
@@ -209,6 +211,11 @@ func (m *C11) After(w *world.World, a *world.Action, r *world.StepResult) *Viola
 			if len(kinds) >= 12 {
 				m.deletedRich = true
 				w.Label("deleted-rich-state")
+			}
+			for key := range m.lastFP[id] {
+				if p, ok := prefixOfKey(key); ok && p == 15 {
+					w.Label("deleted-with-slash-acks")
+				}
 			}
 			w.Label("deleted")
 			delete(m.atStop, id)
